@@ -496,6 +496,9 @@ def real(line: str) -> str:
             h = MessageHeader(int(toks[2]), 0, int(toks[3]), int(toks[4]), int(toks[5]),
                               int(toks[6]), int(toks[7]))
             req = cls(h)
+            # a request as Message.from_bytes delivers it: the class is
+            # constructed, then the received flag octet is put back
+            req.header.command_flags = int(toks[3])
             before = show_header(req.header)
             ans = req.to_answer()
             after = show_header(req.header)
